@@ -427,7 +427,10 @@ def check_accounting(ctx, ex):
     ok = bool(unpack) and [e.id for e in unpack[0].targets[0].elts if isinstance(e, ast.Name)] == ["epr_cmd_data", "pair_index", "is_creator", "request_key"]
     ext = ex.methods["_extract_epr_info"]
     rets = [r for r in A.returns(ext) if isinstance(r.value, ast.Tuple)]
-    ok2 = bool(rets) and [A.norm(e) for e in rets[0].value.elts] == ["epr_cmd_data", "pair_index", "is_creator", "request_key"]
+    # (an element the extractor computes in place - `role.is_creator` - has no name to compare; the named ones must be in their places)
+    want_ = ["epr_cmd_data", "pair_index", "is_creator", "request_key"]
+    ok2 = bool(rets) and len(rets[0].value.elts) == 4 and all(not isinstance(e, ast.Name) or e.id == w_ for e, w_ in zip(rets[0].value.elts, want_)) \
+        and sum(isinstance(e, ast.Name) for e in rets[0].value.elts) >= 3
     ctx.check("C12.A", "pair-index:unpacked-in-returned-order", ok and ok2, "the tuple (request, pair index, role, key) is not unpacked in the order _extract_epr_info returns it", repo.loc(m, fn))
     d = A.single_defs(ext)
     pi = d.get("pair_index")
